@@ -99,6 +99,10 @@ let () =
           print_items id (run_case (entry_of_string en) (bytes_of_hex hex) (n_of_string param) b)
         | "K" :: id :: cap :: ops ->
           print_items id (run_cache (n_of_string cap) (List.map parse_op (List.filter (fun s -> s <> "") ops)))
+        | "O" :: id :: a :: b :: _ ->
+          let c = match lex_compare (bytes_of_hex a) (bytes_of_hex b) with Lt -> "0" | Eq -> "1" | Gt -> "2" in
+          print_endline (id ^ " cmp=" ^ c)
+        | "D" :: id :: _ -> print_endline id
         | _ -> failwith ("bad line " ^ line)
       end
     done
